@@ -296,6 +296,34 @@ fn run_pass(bytes: &[u8], ops: &[Op], limit: usize, fail_from: usize, stats: &mu
                     stats.probe("section_data_accounted");
                 }
             }
+            // completeness, sample buffers: "grids ... carry their handle for their lifetime" — the
+            // distinct sample grids reachable through the renders the caller keeps alive are part
+            // of the tracked total at their real element size (added after seeded mutation
+            // c13-m6, which charged cloned f32 grids one byte per sample)
+            {
+                let mut seen: Vec<usize> = Vec::new();
+                let mut grid_bytes = 0usize;
+                for r in &renders {
+                    let (_, ec) = r.extra_channels();
+                    for b in r.color_channels().iter().chain(ec) {
+                        let (ptr, bytes) = match b {
+                            jxl_render::ImageBuffer::F32(g) => (g.buf().as_ptr() as usize, g.buf().len() * 4),
+                            jxl_render::ImageBuffer::I32(g) => (g.buf().as_ptr() as usize, g.buf().len() * 4),
+                            jxl_render::ImageBuffer::I16(g) => (g.buf().as_ptr() as usize, g.buf().len() * 2),
+                        };
+                        if bytes > 0 && !seen.contains(&ptr) {
+                            seen.push(ptr);
+                            grid_bytes += bytes;
+                        }
+                    }
+                }
+                if grid_bytes > outstanding {
+                    return Err(("untracked_memory:render_grids".into(), format!("after op #{i} {op:?}: the {} renders kept alive hold {grid_bytes} bytes of distinct sample grids but only {outstanding} bytes are tracked", renders.len())));
+                }
+                if grid_bytes > 0 {
+                    stats.probe("render_grids_accounted");
+                }
+            }
         }
         out.peak = tracker.verif_high_water();
         out.allocs = tracker.verif_allocs();
